@@ -113,7 +113,7 @@ def eval_case(c):
     def inconclusive(note):
         return {'status': 'inconclusive', 'nontrivial': False, 'violations': [], 'obs': dict(obs, note=note), 'counters': cnt}
 
-    def conv(body, kam, keep=False, rt=rtol, nds=(False,)):
+    def conv(body, kam, keep=False, rt=rtol, nds=(False,), jt=-1, scaler=None):
         why = None
         for nd in nds:
             cnt['solves'] += 2
@@ -121,11 +121,16 @@ def eval_case(c):
             if not s['success']:
                 why = why or (('exception ' + s['exc']) if s['exc'] else 'solver failure: ' + s['message'][:50])
                 continue
-            s2 = solve(body, w, l=l, kamata=kam, rtol=rt / 100, nondim=nd, max_steps=400000, method='DOP853')
+            s2 = solve(body, w, l=l, kamata=kam, rtol=rt / 100, nondim=nd, max_steps=400000, keep_result=keep, method='DOP853')
             if not s2['success']:
                 why = why or 'convergence probe failed'
                 continue
             d = float(np.max(np.abs(s2['love'] - s['love'])))
+            if keep and scaler is not None:
+                # convergence of the radial functions themselves at the top of the innermost layer (their error can exceed that of the Love
+                # numbers when the three-solution basis is nearly degenerate): change of the scaled vector (same row scaling as the residual test) between the two tolerances
+                ya, yb = scaler(s['result'][:6, jt]), scaler(s2['result'][:6, jt])
+                s['dy'] = float(np.linalg.norm(ya - yb) / max(np.linalg.norm(yb), 1e-300))
             if d > 1e3 * rt:
                 why = why or f'not converged ({d:.1e})'
                 continue
@@ -137,7 +142,7 @@ def eval_case(c):
         kam, static, inc = fam.startswith('kam'), fam.endswith('static'), fam.endswith('incomp')
         N = 25
         body = homog_body(R, rho, mu, K, N, c['r0f'] * R, static=static, incomp=inc)
-        s, d = conv(body, kam, keep=True)
+        s, d = conv(body, kam, keep=True, scaler=lambda v: scale_solid(v, body['r'][-1], mu, body['g'][-1]))
         if s is None:
             return inconclusive(d)
         y = s['result'][:6]
@@ -159,6 +164,8 @@ def eval_case(c):
         r0 = r[0]
         if min(abs(kp * r0 ** 2), abs(kn * r0 ** 2)) <= 0.1:
             taylor = True
+        if inc and abs(w * w * rho / mu) * r0 ** 2 <= 0.1:
+            taylor = True          # incompressible family: z is evaluated at k^2 = w^2 rho / mu
         tak_before = tak_after = None
         if not kam:
             # are the Takeuchi vectors at r0 regular solutions? (membership in the span of the Kamata vectors at r0), before / after
@@ -169,7 +176,7 @@ def eval_case(c):
             tak_before = max(resid_in(A0, scale_solid(T[i], r0, mu, g[0])) for i in range(3))
             tak_after = max(resid_in(A0, scale_solid(v, r0, mu, g[0])) for v in takeuchi_y6_fix(T, r0, l))
             obs.update(takeuchi_in_kamata_span=tak_before, after_y6_reassembly=tak_after)
-        tol = 1e3 * rtol + 1e-9 + 10 * d + 1e-15 * basis_cond      # a nearly dependent basis amplifies rounding in the projection
+        tol = 1e3 * rtol + 1e-9 + 10 * d + 10 * s.get('dy', 0.0) + 1e-15 * basis_cond      # a nearly dependent basis amplifies rounding in the projection; dy = observed convergence of y itself
         obs.update(fam=fam, r0f=c['r0f'], basis_condition=basis_cond, worst_residual=worst, tol=tol, at_r_over_R=float(r[worst_j] / R), k=complex(s['love'][0][0]))
         if worst > tol:
             if (not kam) and tak_before > 1e-12 and tak_after < tak_before * 0.05:
@@ -188,7 +195,8 @@ def eval_case(c):
         layers = [{'type': 'liquid', 'static': False, 'incomp': inc, 'ftop': 0.5, 'rho': rho, 'mu': 0j, 'K': K},
                   {'type': 'solid', 'static': False, 'incomp': False, 'ftop': 1.0, 'rho': rho * 0.5, 'mu': mu, 'K': K}]
         body = layered_body(layers, R, c['r0f'] * 0.5 * R, 40)
-        s, d = conv(body, kam, keep=True, rt=1e-9, nds=(False, True))
+        s, d = conv(body, kam, keep=True, rt=1e-9, nds=(False, True), jt=39,
+                    scaler=lambda v: v[[0, 1, 4, 5]] * np.array([1, 1 / (rho * body['g'][39]), 1 / (body['g'][39] * body['r'][39]), 1 / body['g'][39]]))
         if s is None:
             return inconclusive(d)
         y = s['result'][:6]
@@ -199,7 +207,7 @@ def eval_case(c):
         res_own = resid_in((start_vectors(1, False, inc, kam, c, r[j], 0j, K, 2, 4) * S).T, b)
         res_kam = res_own if kam else resid_in((start_vectors(1, False, False, True, c, r[j], 0j, K, 2, 4) * S).T, b)
         cnt['subspace_tests'] += 1
-        tol = 1e3 * 1e-9 + 1e-8 + 10 * d
+        tol = 1e3 * 1e-9 + 1e-8 + 10 * d + 10 * s.get('dy', 0.0)
         gam = 4 * math.pi * G * rho / 3
         k2l = abs((w * w + 4 * gam - l * (l + 1) * gam ** 2 / (w * w)) / (K / rho))
         z0, ztop = k2l * r[0] ** 2, k2l * r[j] ** 2
